@@ -133,6 +133,8 @@ type State struct {
 	Earned  []EFRec          `json:"earned"`
 	OEarned []EFRec          `json:"oearned"`
 	Anom    []string         `json:"anom"`
+
+	dg string
 }
 
 const BigInt = int64(2000000000) // TLC integers are 32 bit
@@ -478,14 +480,19 @@ func (c *Chain) ProjectCtx(ctx sdk.Context) *State {
 		*anom = append(*anom, fmt.Sprintf("C15 stored price terms %s without a binding", k))
 	}
 	sort.Strings(st.Anom)
+	if ctx.KVStore(c.App.GetKey(types.StoreKey)) != nil {
+		st.dg = c.digestCtx(ctx)
+	}
 	sort.Slice(st.Ctx, func(i, j int) bool { return st.Ctx[i].ID < st.Ctx[j].ID })
 	return st
 }
 
 // Digest of the consensus state: the raw service store, the tracked balances and supply (C20)
-func (c *Chain) Digest() string {
+func (c *Chain) Digest() string { return c.digestCtx(c.Ctx) }
+
+func (c *Chain) digestCtx(ctx sdk.Context) string {
 	h := sha256.New()
-	store := c.Ctx.KVStore(c.App.GetKey(types.StoreKey))
+	store := ctx.KVStore(c.App.GetKey(types.StoreKey))
 	it := store.Iterator(nil, nil)
 	defer it.Close()
 	for ; it.Valid(); it.Next() {
@@ -500,8 +507,8 @@ func (c *Chain) Digest() string {
 	names = append(names, "DEP", "REQ", "TAX")
 	for _, n := range names {
 		h.Write([]byte(n))
-		h.Write([]byte(c.App.BankKeeper.GetAllBalances(c.Ctx, c.Addr[n]).String()))
+		h.Write([]byte(c.App.BankKeeper.GetAllBalances(ctx, c.Addr[n]).String()))
 	}
-	h.Write([]byte(c.App.BankKeeper.GetSupply(c.Ctx).GetTotal().String()))
+	h.Write([]byte(c.App.BankKeeper.GetSupply(ctx).GetTotal().String()))
 	return hex.EncodeToString(h.Sum(nil)[:12])
 }
